@@ -232,7 +232,9 @@ func c38Run(r *simkit.Run) {
 	r.Op("clients=%d positions asked=%d last height=%d cleanup=%v", nclients, len(answers), lastHeight, useCleanup)
 }
 
-func mustJSON(enc interface{ Marshal(interface{}) ([]byte, error) }, v interface{}) []byte {
+func mustJSON(enc interface {
+	Marshal(interface{}) ([]byte, error)
+}, v interface{}) []byte {
 	b, err := enc.Marshal(v)
 	if err != nil {
 		panic(err)
@@ -243,11 +245,11 @@ func mustJSON(enc interface{ Marshal(interface{}) ([]byte, error) }, v interface
 
 func init() {
 	simkit.Register(&simkit.Harness{
-		ID:   "C38",
-		Run:  c38Run,
-		Real: []string{"isaac.ProposalMaker (Make, PreferEmpty)", "isaacdatabase.TempPool (ProposalByPoint, SetProposal, OperationHashes, clean-up daemon)", "goleveldb on memory storage"},
-		Stub: []string{"last block map (harness variable that advances)", "operations are isaac.DummyOperation"},
-		Rule: "each run draws 1-4 concurrent clients x 1-8 steps: Make / PreferEmpty for points around the last height (2 rounds, 2 previous blocks), adding operations (re-signed duplicates of 1-4 facts), advancing the last block, sleeping up to 70 minutes so that the pool's 33-minute clean-up runs on the fake clock, and re-creating the maker on the same pool. Every returned proposal for one (point, previous block) must have the same fact and the same bytes, and list distinct operations and facts. distinct = event-log hash",
+		ID:          "C38",
+		Run:         c38Run,
+		Real:        []string{"isaac.ProposalMaker (Make, PreferEmpty)", "isaacdatabase.TempPool (ProposalByPoint, SetProposal, OperationHashes, clean-up daemon)", "goleveldb on memory storage"},
+		Stub:        []string{"last block map (harness variable that advances)", "operations are isaac.DummyOperation"},
+		Rule:        "each run draws 1-4 concurrent clients x 1-8 steps: Make / PreferEmpty for points around the last height (2 rounds, 2 previous blocks), adding operations (re-signed duplicates of 1-4 facts), advancing the last block, sleeping up to 70 minutes so that the pool's 33-minute clean-up runs on the fake clock, and re-creating the maker on the same pool. Every returned proposal for one (point, previous block) must have the same fact and the same bytes, and list distinct operations and facts. distinct = event-log hash",
 		Assumptions: []string{"getOperations is wired to TempPool.OperationHashes with no filter, as launch wires it apart from its state filter"},
 	})
 }
